@@ -18,7 +18,9 @@ META = dict(
         "history) or calls a token-level trie function; the only readers are the max_tokens horizon "
         "functions (feature outside the property); the token id given to apply_token is used only "
         "for the identity check and the token-range (special token) branch; R2 the trie walks feed "
-        "the recogniser exactly the node's byte."
+        "the recogniser exactly the node's byte; R3 the speculative row re-use watermark (rows_valid_end) "
+        "is reset to the current row count by every writer, so rows built on one trie branch are never "
+        "re-used on a sibling branch (multi-byte tokens are walked with re-use, single bytes are not)."
     ),
     not_decided="equality of outcomes for two tokenisations of the same bytes (depends on C01/C16 semantics)",
 )
@@ -134,6 +136,12 @@ def run(ctx):
     ctx.check(bool(inner) and bool(g) and not still, "C02-R1", "numeric-probe:iterates-token-range-lexemes",
               "the token-id probe only consults token_range_lexemes() after a successful flush",
               "flush_and_check_numeric no longer restricts itself to token-range lexemes", site=fcn.where())
+
+    # ------------------------------------------------------------------ R3 speculative row re-use cannot mix branches
+    # (a multi-byte token is walked with row re-use, single bytes are not: the watermark discipline is
+    # what makes the two agree; shared with C11-R3 / C01-R2)
+    from . import c11 as _c11
+    _c11.watermark_values(ctx, "C02-R3")
 
     # ------------------------------------------------------------------ R2 walks push node bytes
     n = 0
